@@ -3,6 +3,7 @@
 package c20
 
 import (
+	"context"
 	"fmt"
 	"reflect"
 	"regexp"
@@ -12,19 +13,28 @@ import (
 	"time"
 
 	"gorm.io/gorm"
+	"gorm.io/gorm/logger"
 	"pgregory.net/rapid"
 
 	"verif/internal/evid"
 	"verif/internal/harness"
 	sg "verif/internal/schemagen"
 	"verif/internal/testdb"
+	"verif/internal/vdialect"
 )
+
+type ctxKey struct{}
 
 func TestMain(m *testing.M) { harness.Main(m) }
 
 const rule = "C20: model v1 from the schemagen grammar (C03 kinds and tags) plus index / named index (also named like a column, several per field) / composite index / uniqueIndex / unique / check / named check / size / not null tags; history migrate(v1) -> Create 0-5 rows -> migrate(v1) -> migrate(v2 = v1 + 0-3 added nullable or constant-defaulted fields or embedded structs + indexes / checks added to existing fields) -> read back -> Create v2 records; non-trivial = v1 carries at least one index / constraint / default / size / not null tag and at least one row, and v2 adds at least one element; distinct = v1 + v2 schema + rows"
 
-const table = "t_c20"
+// table is the table of the case being run (set by run; cases run one at a time).
+var table = "t_c20"
+
+// a table name long enough to push every default index / check / unique name over the
+// naming strategy's 64 character limit (the names are then cut and hashed)
+const longTable = "t_c20_a_rather_long_table_name_of_a_legacy_application_xx"
 
 var ddlRe = regexp.MustCompile(`(?i)^\s*(CREATE|ALTER|DROP)\b`)
 
@@ -35,16 +45,23 @@ func schemaChanging(sql string) bool {
 }
 
 type caseT struct {
-	v1, v2    *sg.StructSpec
-	pk        string
-	m1, m2    *sg.Model
-	rows      *sg.Records
-	rows2     *sg.Records
-	added     []string
-	returning bool
-	now       time.Time
-	excl      []string
+	v1, v2           *sg.StructSpec
+	pk               string
+	m1, m2           *sg.Model
+	rows             *sg.Records
+	rows2            *sg.Records
+	added            []string
+	returning        bool
+	now              time.Time
+	excl             []string
+	table            string
+	how1, how2       string // how the second migrate(v1) and migrate(v2) obtain their handle
+	skipTx, noNested bool
+	backToV1         bool // run migrate(v1) once more after migrate(v2)
 }
+
+// the handles a migration can be run through
+var migrateHandles = []string{"fresh", "fresh", "session", "context", "tx", "restart"}
 
 func genCase(rt *rapid.T) *caseT {
 	c := &caseT{}
@@ -84,6 +101,17 @@ func genCase(rt *rapid.T) *caseT {
 	c.rows = sg.GenRecords(rt, c.m1, n, sg.KeyAuto, 1)
 	c.rows2 = sg.GenRecords(rt, c.m2, rapid.IntRange(1, 3).Draw(rt, "rows2"), sg.KeyAuto, 1+n)
 	c.now = testdb.FixedNow.Add(time.Duration(rapid.Int64Range(0, 3_000_000_000).Draw(rt, "nowstep")))
+	c.table = "t_c20"
+	if rapid.IntRange(0, 5).Draw(rt, "longtable") == 0 {
+		c.table = longTable
+	}
+	c.how1 = rapid.SampledFrom(migrateHandles).Draw(rt, "handle.v1again")
+	c.how2 = rapid.SampledFrom(migrateHandles).Draw(rt, "handle.v2")
+	if rapid.IntRange(0, 3).Draw(rt, "cfg") == 0 {
+		c.skipTx = rapid.Bool().Draw(rt, "cfg.skiptx")
+		c.noNested = rapid.Bool().Draw(rt, "cfg.nonested")
+	}
+	c.backToV1 = rapid.IntRange(0, 2).Draw(rt, "backtov1") == 0
 	return c
 }
 
@@ -92,7 +120,18 @@ func (c *caseT) header() string {
 	if !c.returning {
 		ret = "no-returning"
 	}
-	return fmt.Sprintf("v1=%s pk=%s %s rows=%d v2 adds %v; v2=%s rows2=%d", c.v1, c.pk, ret, len(c.rows.Vals), c.added, c.v2, len(c.rows2.Vals))
+	cfg := ""
+	if c.skipTx {
+		cfg += " SkipDefaultTransaction"
+	}
+	if c.noNested {
+		cfg += " DisableNestedTransaction"
+	}
+	back := ""
+	if c.backToV1 {
+		back = " then migrate(v1) again"
+	}
+	return fmt.Sprintf("v1=%s pk=%s %s rows=%d table=%s second-migrate(v1)-through=%s migrate(v2)-through=%s%s%s v2 adds %v; v2=%s rows2=%d", c.v1, c.pk, ret, len(c.rows.Vals), c.table, c.how1, c.how2, cfg, back, c.added, c.v2, len(c.rows2.Vals))
 }
 
 func (c *caseT) desc() string {
@@ -187,6 +226,30 @@ func (c *caseT) classes() []string {
 			}
 			if l.Spec.NotNull {
 				set["v2-adds:not-null-field"] = true
+			}
+		}
+	}
+	set["migrate(v1)-again-through:"+c.how1] = true
+	set["migrate(v2)-through:"+c.how2] = true
+	if c.table == longTable {
+		set["table:long-name(>64-char object names)"] = true
+	}
+	if c.skipTx {
+		set["config:SkipDefaultTransaction"] = true
+	}
+	if c.noNested {
+		set["config:DisableNestedTransaction"] = true
+	}
+	if c.backToV1 {
+		set["history:migrate(v1)-after-v2"] = true
+	}
+	for _, l := range c.m1.Leaves {
+		for _, e := range l.Spec.Extra {
+			set["v1:tag:"+strings.SplitN(e, ":", 2)[0]] = true
+		}
+		for _, o := range []string{"sort:", "where:", ",unique", "priority:"} {
+			if strings.Contains(l.Spec.Index, o) {
+				set["v1:tag:index-option-"+strings.Trim(o, ":,")] = true
 			}
 		}
 	}
@@ -306,8 +369,34 @@ func (c *caseT) objectsExist(d *testdb.DB, m *sg.Model, stage string) string {
 
 // run executes the history and returns the violation ("" = held).
 func (c *caseT) run() string {
-	d := testdb.Open(testdb.Options{NoReturning: !c.returning, Config: gorm.Config{NowFunc: sg.FixedClock(c.now)}})
+	if c.table == "" {
+		c.table = "t_c20"
+	}
+	table = c.table
+	cfg := gorm.Config{NowFunc: sg.FixedClock(c.now), SkipDefaultTransaction: c.skipTx, DisableNestedTransaction: c.noNested}
+	d := testdb.Open(testdb.Options{NoReturning: !c.returning, Config: cfg})
 	defer d.Close()
+	// migrate runs AutoMigrate for a model through the handle the case names
+	migrate := func(m *sg.Model, how string) error {
+		v := reflect.New(m.Type).Interface()
+		switch how {
+		case "session":
+			return d.DB.Session(&gorm.Session{}).Table(table).AutoMigrate(v)
+		case "context":
+			return d.DB.WithContext(context.WithValue(context.Background(), ctxKey{}, "c20")).Table(table).AutoMigrate(v)
+		case "tx":
+			return d.DB.Transaction(func(tx *gorm.DB) error { return tx.Table(table).AutoMigrate(v) })
+		case "restart":
+			// a new process: another gorm handle (empty schema cache) over the same database
+			cfg2 := gorm.Config{NowFunc: sg.FixedClock(c.now), SkipDefaultTransaction: c.skipTx, DisableNestedTransaction: c.noNested, Logger: logger.Discard}
+			db2, err := gorm.Open(vdialect.NewSQLite(d.SQL, !c.returning), &cfg2)
+			if err != nil {
+				return err
+			}
+			return db2.Table(table).AutoMigrate(v)
+		}
+		return d.DB.Table(table).AutoMigrate(v)
+	}
 	env1 := &sg.Env{DB: d, Table: table, M: c.m1, Returning: c.returning, Now: c.now}
 	env2 := &sg.Env{DB: d, Table: table, M: c.m2, Returning: c.returning, Now: c.now}
 
@@ -340,7 +429,7 @@ func (c *caseT) run() string {
 
 	// migrate(v1) again: no schema-changing statement, dump unchanged
 	d.Rec.Reset()
-	if err := env1.Migrate(); err != nil {
+	if err := migrate(c.m1, c.how1); err != nil {
 		return "second migrate(v1) failed: " + err.Error()
 	}
 	exprDefault := c.m1.HasExprDefault()
@@ -367,7 +456,7 @@ func (c *caseT) run() string {
 	}
 
 	// migrate(v2)
-	if err := env2.Migrate(); err != nil {
+	if err := migrate(c.m2, c.how2); err != nil {
 		return "migrate(v2) failed: " + err.Error()
 	}
 	data3, err := dumpData(d, c.m1)
@@ -435,6 +524,31 @@ func (c *caseT) run() string {
 		}
 		if schema4, _ := dumpSchema(d); schema4 != schema3 {
 			return "second migrate(v2) changed the schema:\n before: " + schema3 + " after: " + schema4
+		}
+	}
+	// back to the old model: AutoMigrate never drops anything, the table (a superset of v1) is left alone
+	if c.backToV1 {
+		schema5, _ := dumpSchema(d)
+		d.Rec.Reset()
+		if err := migrate(c.m1, "fresh"); err != nil {
+			return "migrate(v1) after migrate(v2) failed: " + err.Error()
+		}
+		if !c.m1.HasExprDefault() {
+			for _, e := range d.Rec.Statements() {
+				if schemaChanging(e.Text) {
+					return "migrate(v1) after migrate(v2) sent a schema-changing statement: " + e.Text
+				}
+			}
+			if schema6, _ := dumpSchema(d); schema6 != schema5 {
+				return "migrate(v1) after migrate(v2) changed the schema:\n before: " + schema5 + " after: " + schema6
+			}
+		}
+		// (with an expression default the driver's parser makes gorm rebuild the table, and the
+		// rebuild drops the indexes only v2 declares: covered by the same exemption)
+		if !c.m1.HasExprDefault() {
+			if msg := c.objectsExist(d, c.m2, "after migrate(v1) following migrate(v2)"); msg != "" {
+				return msg
+			}
 		}
 	}
 	// a v2 record round-trips
@@ -570,6 +684,8 @@ type relCase struct {
 	Ignore  bool `json:"IgnoreRelationshipsWhenMigrating"`
 	V1Rel   bool `json:"v1_has_relation"`
 	Rows    int  `json:"rows"`
+	// Explicit: migrate(v2) names both models in one call: "" (order model only), "owner-first", "order-first"
+	Explicit string `json:"explicit_models"`
 }
 
 func (c relCase) String() string {
@@ -577,7 +693,7 @@ func (c relCase) String() string {
 	if c.V1Rel {
 		v1 = "v1 with belongs-to"
 	}
-	return fmt.Sprintf("DisableForeignKeyConstraintWhenMigrating=%v IgnoreRelationshipsWhenMigrating=%v %s rows=%d -> v2 = belongs-to + added field", c.Disable, c.Ignore, v1, c.Rows)
+	return fmt.Sprintf("DisableForeignKeyConstraintWhenMigrating=%v IgnoreRelationshipsWhenMigrating=%v %s rows=%d -> v2 = belongs-to + added field (AutoMigrate models: %q)", c.Disable, c.Ignore, v1, c.Rows, c.Explicit)
 }
 
 func ordersDDL(d *testdb.DB) string {
@@ -652,7 +768,16 @@ func (c relCase) run() string {
 	if s, _ := dumpSchema(d); s != schema1 {
 		return "second migrate(v1) changed the schema:\n before: " + schema1 + " after: " + s
 	}
-	if err := d.DB.AutoMigrate(&relOrderV2{}); err != nil {
+	v2models := func() []interface{} {
+		switch c.Explicit {
+		case "owner-first":
+			return []interface{}{&relOwner{}, &relOrderV2{}}
+		case "order-first":
+			return []interface{}{&relOrderV2{}, &relOwner{}}
+		}
+		return []interface{}{&relOrderV2{}}
+	}
+	if err := d.DB.AutoMigrate(v2models()...); err != nil {
 		return "migrate(v2) failed: " + err.Error()
 	}
 	if msg := fkState("after migrate(v2)", true); msg != "" {
@@ -677,7 +802,7 @@ func (c relCase) run() string {
 	}
 	schema2, _ := dumpSchema(d)
 	d.Rec.Reset()
-	if err := d.DB.AutoMigrate(&relOrderV2{}); err != nil {
+	if err := d.DB.AutoMigrate(v2models()...); err != nil {
 		return "second migrate(v2) failed: " + err.Error()
 	}
 	if msg := noDDL("second migrate(v2)"); msg != "" {
@@ -712,13 +837,15 @@ func TestC20Relations(t *testing.T) {
 		for _, ignore := range []bool{false, true} {
 			for _, v1rel := range []bool{false, true} {
 				for _, rows := range []int{0, 2} {
-					c := relCase{disable, ignore, v1rel, rows}
-					cls := []string{fmt.Sprintf("relations:disable-fk=%v,ignore-relationships=%v", disable, ignore), fmt.Sprintf("relations:v1-has-relation=%v", v1rel)}
-					evid.Journal(c.String())
-					evid.Case("relations: "+c.String(), rows > 0, nil, cls...)
-					if msg := c.run(); msg != "" {
-						harness.SaveCase("TestC20Relations", c)
-						t.Errorf("C20 violated: %s\n  case: %s", msg, c)
+					for _, explicit := range []string{"", "owner-first", "order-first"} {
+						c := relCase{disable, ignore, v1rel, rows, explicit}
+						cls := []string{fmt.Sprintf("relations:disable-fk=%v,ignore-relationships=%v", disable, ignore), fmt.Sprintf("relations:v1-has-relation=%v", v1rel)}
+						evid.Journal(c.String())
+						evid.Case("relations: "+c.String(), rows > 0, nil, cls...)
+						if msg := c.run(); msg != "" {
+							harness.SaveCase("TestC20Relations", c)
+							t.Errorf("C20 violated: %s\n  case: %s", msg, c)
+						}
 					}
 				}
 			}
